@@ -1,8 +1,8 @@
 #!/verif/.venv/bin/python
 # Replay of a solver counterexample against the unmodified code (no shims).
-# property=C03 kernel=step label=c01:refusal_has_cause
+# property=C03 kernel=eom label=c03:no_delay_start
 import sys
-sys.path[:0] = ["/repo/pulser-core", "/repo/pulser-simulation", "/verif"]
+sys.path[:0] = ['/repo' + "/pulser-core", '/repo' + "/pulser-simulation", "/verif"]
 from symx.replay import replay
-sys.exit(replay(check='checks.c03', kernel='step', shape={'own': {'clock': 1, 'local': False, 'slots': ['delay'], 'mod': True, 'pj': 'custom', 'targets_a': ['q0'], 'targets_b': ['q1']}, 'op': ['add_pulse', 'min-delay', 'B'], 'maxseq': True, 'nbarriers': 1},
-                assignment={'max_sequence_duration': 6, 'own.min_duration': 2, 'own.tr': 1, 'own.pjt': 0, 'own.s0.dur': 2, 'new.dur': 2, 'barrier0': 3}, label='c01:refusal_has_cause'))
+sys.exit(replay(check='checks.c03', kernel='eom', shape={'own': {'clock': 4, 'local': False, 'slots': [], 'mod': True, 'pj': 'derived', 'det_off': 0.0, 'eom': {'custom_buffer': False, 'blocks': [(0, None)]}}, 'op': ['add_pulse', 'no-delay', 'A'], 'maxseq': True, 'nbarriers': 1},
+                assignment={'max_sequence_duration': 6, 'own.min_duration': 2, 'own.tr': 1, 'own.eom_tr': 1, 'new.dur/k': 1, 'barrier0': 1, 'buf#1.start': 0, 'buf#1.end': 0, 'buf#2.start': 0, 'buf#2.end': 0}, label='c03:no_delay_start'))
